@@ -209,15 +209,16 @@ func TestRandom(t *testing.T) {
 			continue
 		}
 		// a rule set
-		nr := r.Intn(4)
+		nr := r.Intn(6)
 		var rules acl.Rules
 		var rj []ruleJ
 		var somePat []rune
+		var allPats [][]rune
 		for k := 0; k < nr; k++ {
 			var rule acl.Rule
 			j := ruleJ{Action: []string{}, Secret: [][]int{}}
 			for _, a := range actions {
-				if r.Intn(3) == 0 {
+				if r.Intn(5) < 2 {
 					rule.Action = append(rule.Action, acl.Action(a))
 					j.Action = append(j.Action, a)
 				}
@@ -225,6 +226,7 @@ func TestRandom(t *testing.T) {
 			for s := r.Intn(3); s > 0; s-- {
 				p := genPat(maxLen / 2)
 				somePat = p
+				allPats = append(allPats, p)
 				rule.Secret = append(rule.Secret, acl.Secret(string(p)))
 				j.Secret = append(j.Secret, vh.Runes(string(p)))
 			}
@@ -234,14 +236,43 @@ func TestRandom(t *testing.T) {
 		if rj == nil {
 			rj = []ruleJ{}
 		}
-		nm := expand(somePat)
-		a := actions[r.Intn(len(actions))]
-		got, pan := safeAllow(rules, acl.Action(a), string(nm))
-		e := allowEvent{Ev: "allow", Rules: rj, Action: a, N: vh.Runes(string(nm)), Res: got, Panic: pan != nil}
-		w.Put(e)
-		distinct[fmt.Sprint(rj, a, e.N)] = true
-		if i < 6 {
-			res.Sample(e)
+		if r.Intn(2) == 0 {
+			// the same rule set laid out the way a policy table may hold it: every rule's patterns (and actions) are
+			// consecutive sub-slices of ONE backing array, so each slice has spare capacity running into its neighbours
+			var pats []acl.Secret
+			var acts []acl.Action
+			for _, rule := range rules {
+				pats = append(pats, rule.Secret...)
+				acts = append(acts, rule.Action...)
+			}
+			pi, ai := 0, 0
+			for k := range rules {
+				np, na := len(rules[k].Secret), len(rules[k].Action)
+				rules[k].Secret = pats[pi : pi+np]
+				rules[k].Action = acts[ai : ai+na]
+				pi, ai = pi+np, ai+na
+			}
+		}
+		// many evaluations of the same rule set value -- every action, names made from every pattern of the set, twice over:
+		// each must answer for the rule set as it was given
+		names := [][]rune{expand(somePat)}
+		for _, p := range allPats {
+			names = append(names, expand(p))
+		}
+		for pass := 0; pass < 2; pass++ {
+			for ai, a := range actions {
+				nm := names[(ai+pass)%len(names)]
+				if pass == 1 {
+					nm = names[r.Intn(len(names))]
+				}
+				got, pan := safeAllow(rules, acl.Action(a), string(nm))
+				e := allowEvent{Ev: "allow", Rules: rj, Action: a, N: vh.Runes(string(nm)), Res: got, Panic: pan != nil}
+				w.Put(e)
+				distinct[fmt.Sprint(rj, a, e.N)] = true
+				if i < 6 && pass == 0 && ai == 0 {
+					res.Sample(e)
+				}
+			}
 		}
 	}
 	res.Set("events", n)
